@@ -4,7 +4,10 @@ C20 - loading arbitrary or corrupted bytes terminates with a clean outcome.
 Monitor shape: fault injection + process monitor.  Valid files (every exporter's output on small
 generated geometry + small bundled models) are mutated by enumerated fault operators
 (truncation at every length / structural offsets, byte substitutions, field-aware u32/u16 and
-decimal-token inflation, chunk delete / duplicate / swap, splices, arbitrary noise) and loaded
+decimal-token inflation, chunk delete / duplicate / swap, splices, arbitrary noise) or replaced by
+well-formed files of the same format in which one structural dimension is scaled up (G-grown,
+vmon/gen/grown.py: instance graphs as chain / diamond / ring / loop / fan, records of one kind,
+the length of one line), and loaded
 by the real loaders inside child processes (vmon/child_load.py) that watch: interpreter
 survival (exit status / signal / faulthandler), CPU seconds against a bound linear in the
 input size, memory (RLIMIT_AS cap linear in the input size + peak RSS growth), the exception
@@ -17,6 +20,7 @@ import io
 import json
 import os
 import shutil
+import signal
 import subprocess
 import sys
 import tempfile
@@ -34,8 +38,17 @@ RULE = (
     "truncate (every length for files <= 8 KiB in thorough, strided + structural offsets in quick), "
     "single-byte substitution by {00,FF,80,^01,^80}, u32/u16 field overwrite with "
     "{7FFFFFFF,80000000,FFFFFFFF,00FFFFFF} at every offset of the first 512 bytes (strided in quick), "
-    "decimal-token inflation/sign/nan/inf in text headers, chunk delete/duplicate/swap, splices of two "
-    "seeds, random / ascii / prefix+noise strings, multi-byte corruption.  distinct = distinct "
+    "decimal-token inflation/sign/nan/inf in text headers, one line removed, one `#id = ENTITY(...);` record of an "
+    "ISO 10303-21 file removed / one entity name replaced by another (dangling, duplicate, ill-typed references), "
+    "chunk delete/duplicate/swap, splices of two "
+    "seeds, random / ascii / prefix+noise strings, multi-byte corruption; grow = a well-formed file of the "
+    "format with ONE structural dimension scaled (instance graph chain/diamond/ring/loop/fan rendered as 3MF "
+    "components, glTF nodes, 3DXML instances, COLLADA instance_node; nested XAML visuals / SVG groups; entries "
+    "of an SVG transform list; records of one kind: buffer views, accessors, nodes, meshes, materials, "
+    "primitives, usemtl / o / g groups, PLY list / scalar properties and elements, DXF entities / layers / "
+    "inserts / polyline vertices, SVG paths / segments / sub-paths / arcs, STL solids, polygon corners; the "
+    "length of one line: DXF comment / layer / text, OBJ / OFF comment, STL name), sizes per tier in "
+    "grown.FAMILIES, judged against the same linear bounds.  distinct = distinct "
     "(loader, entry, via, operator, parameters, seed); non-trivial = the mutated bytes differ from the "
     "valid seed (op != valid)."
 )
@@ -64,15 +77,28 @@ MIN_EVENTS = {"quick": 3000, "thorough": 50000}
 ASSUMPTIONS = [
     "bounds: CPU <= 5 s + 2e-5 s/byte; address space growth <= max(256 MiB, 400 B/byte) (RLIMIT_AS, "
     "an allocation failure under the cap is the 'out of proportion' event); peak RSS growth <= 64 MiB + 200 B/byte",
+    "grown files (vmon/gen/grown.py) are judged by the same bounds; their CPU interrupt is at 1.2x the bound instead of "
+    "1.5x; sizes are chosen so that a loader that is linear with a large constant (10 KB per instance, 17 us per byte) "
+    "stays below half of a bound; zip containers are written uncompressed so that the bytes of the file are the bytes to parse",
     "a file object that is still open after the loader returned or raised counts as leaked even if "
     "reference counting would close it later (the monitor holds a strong reference on purpose)",
     "third-party parsers reached through registered loaders (meshio, cascadio, openctm, lxml, collada) are in scope "
     "as far as survival/CPU/memory go",
+    "the address-space cap of the step loader is 16 GiB (native thread pool: stacks and malloc arenas are reserved, not "
+    "used); its memory is judged by peak RSS growth only",
 ]
 
 HERE = os.path.dirname(os.path.dirname(os.path.dirname(os.path.abspath(__file__))))
 NCHILD = int(os.environ.get("VERIF_C20_CHILDREN", "14"))
 CASES_PER_CHILD = 400
+GROW_PER_CHILD = 5
+HEAVY_SLOTS = max(2, (2 * NCHILD) // 3)
+# OpenCASCADE (step, stp) starts a pool of ~3 threads per core; every thread reserves 8 MiB of stack and a
+# 64 MiB malloc arena of ADDRESS SPACE: under the 256 MiB cap the unmodified bundled model hangs or
+# dies inside the native library (measured: +256 MiB hang, +1 GiB silent exit, +4 GiB loads in 0.23 s
+# with 46 threads).  That is the cap, not the loader: its address-space term is 16 GiB; memory that
+# is really used is still bounded by the peak RSS growth.
+AS_BASE_NATIVE_THREADS = {"step": 16 * 2**30, "stp": 16 * 2**30}
 LIMITS = {
     # CPU seconds measured in a child that shares the machine with 13 others: cache and memory
     # bandwidth contention can double it, so the constant term is generous; a hang is
@@ -92,13 +118,21 @@ def build_seeds(run):
 
     seeds = []
 
-    def add(sid, ext, data, entries=("load",), companions=None):
+    def add(sid, ext, data, entries=("load",), companions=None, **flags):
         if isinstance(data, str):
             data = data.encode()
         # companions: other files the model names (material library, texture, buffer); they are
         # written next to the model whenever it is loaded by name
         seeds.append({"id": sid, "ext": ext, "data": bytes(data), "entries": list(entries),
-                      "companions": {k: bytes(v if isinstance(v, bytes) else str(v).encode()) for k, v in (companions or {}).items()}})
+                      "companions": {k: bytes(v if isinstance(v, bytes) else str(v).encode()) for k, v in (companions or {}).items()}, **flags})
+
+    # G-grown: one seed per format stands for its families of scaled files; the seed itself is the
+    # smallest member of the first family (it is what the children load to warm up)
+    from vmon.gen import grown
+
+    for ext, fams in grown.FAMILIES.items():
+        entries = ("load", "load_mesh", "load_scene") if ext in grown.MESH_EXT else ("load", "load_path")
+        add("grown:" + ext, ext, grown.make(ext, fams[0][0], 3), entries, grown=True)
 
     ico = trimesh.creation.icosphere(subdivisions=0)
     ico.visual.face_colors = np.tile([200, 100, 50, 255], (len(ico.faces), 1)).astype(np.uint8)
@@ -203,8 +237,11 @@ def build_seeds(run):
         "off": ["whitespace.off", "comments.off"], "ply": ["metadata.ply", "points_ascii.ply"],
         "stl": ["large_block.STL"], "xaml": ["plane.xaml"], "xyz": ["points_agisoft.xyz"],
         "zip": ["ascii.stl.zip"], "binvox": ["chair_model.binvox"], "bz2": ["rock.obj.bz2"],
-        "obj": ["face_in_group_name.obj"], "ctm": ["headless.ctm"],
+        "obj": ["face_in_group_name.obj"], "ctm": ["headless.ctm"], "step": ["featuretype.STEP"],
     }
+    # the only bundled STEP files are large: taken whatever the cap, with the statement-level
+    # operators only (a load is a run of the native converter: 0.3 s)
+    light = {"featuretype.STEP"}
     for ext, names in wanted.items():
         for name in names:
             p = os.path.join(models, name)
@@ -213,10 +250,10 @@ def build_seeds(run):
             except OSError:
                 run.skip("bundled model missing: " + name)
                 continue
-            if len(data) > cap:
+            if len(data) > cap and name not in light:
                 run.skip("bundled model over the size cap for this tier: " + name)
                 continue
-            add("model:" + name, ext, data, ("load",))
+            add("model:" + name, ext, data, ("load",), light=name in light, as_base=AS_BASE_NATIVE_THREADS.get(ext))
     return seeds
 
 
@@ -242,6 +279,35 @@ def enumerate_ops(run, seed, seeds):
     quick = run.tier == "quick"
     rng = run.pyrng
     yield ("valid", [])
+    if seed.get("grown"):
+        from vmon.gen import grown
+
+        for family, q_sizes, t_sizes in grown.FAMILIES[seed["ext"]]:
+            for size in (q_sizes if quick else t_sizes):
+                yield ("grow", [seed["ext"], family, size])
+        return
+    # statement-level faults of text made of `#id = ENTITY(... #ref ...);` records (ISO 10303-21): one
+    # record removed, one entity name replaced by another (dangling, duplicate and ill-typed references)
+    from vmon.child_load import tokens_of as _tokens
+
+    nst = len(_tokens(data, "stmt"))
+    if nst >= 4:
+        nid = len(_tokens(data, "hashid"))
+        # (measured on the bundled model: one such fault in ten kills the interpreter; 60 faults miss it 2 times in 1000)
+        for _ in range(30 if quick else 300):
+            yield ("tokdel", ["stmt", rng.randrange(nst)])
+            yield ("tokcopy", ["hashid", rng.randrange(nid), rng.randrange(nid)])
+    if seed.get("light"):
+        for k in sorted({0, 1, n // 3, n // 2, n - 2, n - 1}):
+            yield ("truncate", [k])
+        for i in range(4 if quick else 40):
+            yield ("multi", [rng.getrandbits(32), rng.choice([2, 8])])
+        return
+    # one line removed
+    nln = len(_tokens(data, "line")) if b"\x00" not in data[:1024] else 0
+    if nln >= 3:
+        for k in (rng.sample(range(nln), min(nln, 10)) if quick else range(min(nln, 400))):
+            yield ("tokdel", ["line", k])
     # truncations
     if n <= 8192 and not quick:
         lens = range(n)
@@ -427,6 +493,13 @@ def build_cases(run, seeds):
             if seed.get("companions") and (op != "valid") and h % 2 == 0:
                 # a model with companion files only has them when loaded by name
                 routes += [(seed["entries"][h % len(seed["entries"])], "path")]
+            if op == "grow":
+                # flattening instances is what load_mesh adds to load: the quick tier takes it for the instance
+                # graphs and load for the rest (a case that breaks the CPU bound costs the bound before it is interrupted)
+                deep = (args[1].startswith("graph:") or args[1] == "nested") and "load_mesh" in seed["entries"]
+                routes = [("load_mesh" if deep else "load", "file")]
+                if run.tier != "quick":
+                    routes = [(e, "file") for e in seed["entries"]] + [(seed["entries"][h % len(seed["entries"])], "path")]
             if op == "valid":
                 routes += [(e, "path") for e in seed["entries"]]
                 # by name with the type spelled out, and as a pathlib.Path
@@ -436,6 +509,10 @@ def build_cases(run, seeds):
             for entry, via in dict.fromkeys(routes):
                 cases.append([cid, si, op, args, entry, via])
                 cid += 1
+    only = os.environ.get("VERIF_C20_OPS")  # development aid: run a slice of the enumeration (such a run is INCONCLUSIVE)
+    if only:
+        cases = [c for c in cases if c[2] in only.split(",")]
+        run.inconclusive("VERIF_C20_OPS=%s: only a slice of the enumeration was run" % only)
     return cases
 
 
@@ -445,7 +522,7 @@ def build_cases(run, seeds):
 
 def run_children(run, seeds, cases, work):
     """Run all cases in child processes; yield result records joined with their case."""
-    seed_payload = [{"id": s["id"], "ext": s["ext"], "hex": s["data"].hex(),
+    seed_payload = [{"id": s["id"], "ext": s["ext"], "hex": s["data"].hex(), "as_base": s.get("as_base"),
                      "companions": {k: v.hex() for k, v in s.get("companions", {}).items()}} for s in seeds]
     env = dict(os.environ)
     env["PYTHONPATH"] = os.pathsep.join([p for p in sys.path if p]) if not env.get("PYTHONPATH") else env["PYTHONPATH"]
@@ -454,15 +531,25 @@ def run_children(run, seeds, cases, work):
     # phase 1: valid files and size-field / token faults (where allocation and seek arithmetic
     # go wrong); phase 2: everything else.  A budget cut removes part of phase 2 only.
     PRIO = ("valid", "u32", "u16", "u32xor", "u32add", "token", "json", "json2", "tokcopy", "ref", "zipinner", "repeat")
-    prio = [c for c in cases if c[2] in PRIO]
-    rest = [c for c in cases if c[2] not in PRIO]
+    # phase 0: grown files, a few per child: one that breaks the CPU bound keeps its child busy for
+    # 1.5x the bound, so they start first and next to each other rather than one after the other
+    # (the same for faults that are likely to kill the child: what is left of its batch is run again)
+    first = lambda c: c[2] == "grow" or (seeds[c[1]].get("light") and c[2] != "valid")  # noqa: E731
+    grow = [c for c in cases if first(c)]
+    prio = [c for c in cases if c[2] in PRIO and not first(c)]
+    rest = [c for c in cases if c[2] not in PRIO and not first(c)]
     batches = []
+    n_heavy = 0
     next_id = max(c[0] for c in cases) + 1
-    for group in (prio, rest):
-        nb = max(1, -(-len(group) // CASES_PER_CHILD))
+    for group in (grow, prio, rest):
+        if not group:
+            continue
+        nb = max(1, -(-len(group) // (GROW_PER_CHILD if group is grow else CASES_PER_CHILD)))
         part = [group[i::nb] for i in range(nb)]
         run.pyrng.shuffle(part)
         batches += part
+        if group is grow:
+            n_heavy = len(part)
     # every child first loads each seed it needs unmodified, as ordinary MONITORED cases
     # flagged "warmup": lazy imports of optional back ends happen there, so their one-off
     # allocations are not charged to a mutated case; only the RSS bound is waived for them
@@ -476,6 +563,14 @@ def run_children(run, seeds, cases, work):
         warm.append(pre + batch)
     batches = warm
     pending = list(enumerate(batches))
+    # the heavy batches take at most two thirds of the children, from the start; the enumeration proper
+    # runs next to them (a quick run on a loaded machine still observes thousands of faults)
+    heavy, pending = pending[:n_heavy], pending[n_heavy:]
+    heavy_ids = {bi for bi, _ in heavy}
+    # grown files before the faults that kill children
+    heavy.sort(key=lambda b: 0 if any(c[2] == "grow" for c in b[1]) else 1)
+    suspects = set()
+    slow = []
     running = {}
     results = {}
     entered = set()
@@ -507,10 +602,12 @@ def run_children(run, seeds, cases, work):
             [sys.executable, "-m", "vmon.child_load", jp, op],
             cwd=HERE, env=env, stdout=subprocess.DEVNULL, stderr=open(op + ".stderr", "w"),
         )
-        running[p] = (bi, batch, jp, op, deadline)
+        running[p] = (bi, batch, jp, op, deadline, time.time())
 
     def collect(p, killed=False):
-        bi, batch, jp, op, deadline = running.pop(p)
+        bi, batch, jp, op, deadline, t_launch = running.pop(p)
+        slow.append((round(time.time() - t_launch, 1), round(t_launch - run.t0, 1), len(batch), bi in heavy_ids,
+                     sorted({c[2] for c in batch})[:4]))
         by_id = {c[0]: c for c in batch}
         done_ids = set()
         last_started = None
@@ -540,10 +637,24 @@ def run_children(run, seeds, cases, work):
         if not finished_clean:
             # the child died (or was killed by the watchdog) while running `last_started`
             rc = p.returncode
+            if killed:
+                # not a verdict (the case is run again, first in a fresh child), but it costs wall time: keep a trace
+                run.count("watchdog_kills")
+                if last_started in by_id:
+                    c = by_id[last_started]
+                    run.state("watchdog_suspects", "%s %s %s %s/%s" % (seeds[c[1]]["id"], c[2], str(c[3])[:60], c[4], c[5]))
             rest = [c for c in batch if c[0] not in done_ids and c[0] != last_started]
             if last_started is not None and last_started not in done_ids:
                 c = by_id[last_started]
-                if len(batch) == 1:
+                if rc == -signal.SIGPROF and not killed:
+                    # the child's own CPU timer, armed for this case alone: the verdict is the case's, beyond doubt
+                    results[c[0]] = (c, {
+                        "id": c[0], "phase": "end", "outcome": "cpu_timeout", "site": "native",
+                        "detail": "killed by the CPU timer of the case at 2x the bound: native code never returned to the interpreter",
+                        "cpu": None, "leaked": [], "rss_growth": 0, "rss_limit": 1, "cpu_limit": 1, "fd_growth": 0,
+                    })
+                elif len(batch) == 1 or (c[0] in suspects and batch[0][0] == c[0]):
+                    # it was alone, or the first case of a fresh child: nothing ran before it
                     fault = ""
                     try:
                         fault = open(op + ".fault").read()[-1500:]
@@ -557,8 +668,10 @@ def run_children(run, seeds, cases, work):
                         "cpu": None, "leaked": [], "rss_growth": 0, "rss_limit": 1, "cpu_limit": 1, "fd_growth": 0,
                     })
                 else:
-                    # re-run the suspect alone so that it is identified beyond doubt
-                    pending.insert(0, (bi, [c]))
+                    # run the suspect again as the FIRST case of a fresh child so that it is identified
+                    # beyond doubt (what is left of the batch follows it in the same child)
+                    suspects.add(c[0])
+                    rest = [c] + rest
             if rest:
                 pending.insert(0, (bi, rest))
         for fn in (jp, op, op + ".fault", op + ".stderr"):
@@ -567,14 +680,25 @@ def run_children(run, seeds, cases, work):
             except OSError:
                 pass
 
-    while pending or running:
-        while pending and len(running) < NCHILD:
+    while pending or heavy or running:
+        while (pending or heavy) and len(running) < NCHILD:
+            if time.time() > t_stop and pending and pending[0][1][0][0] in suspects and len(pending[0][1]) > 1:
+                # out of budget: the suspect is still confirmed, alone
+                run.count("cases_not_run_budget", len(pending[0][1]) - 1)
+                pending[0] = (pending[0][0], pending[0][1][:1])
             if time.time() > t_stop and not any(len(b) == 1 for _, b in pending[:1]):
-                run.count("batches_not_run_budget", len(pending))
-                run.count("cases_not_run_budget", sum(len(b) for _, b in pending))
+                run.count("batches_not_run_budget", len(pending) + len(heavy))
+                run.count("cases_not_run_budget", sum(len(b) for _, b in pending + heavy))
+                if heavy:
+                    run.count("heavy_batches_not_run_budget", len(heavy))
                 pending.clear()
+                heavy.clear()
                 break
-            bi, batch = pending.pop(0)
+            heavy_running = sum(1 for v in running.values() if v[0] in heavy_ids)
+            if heavy and (heavy_running < HEAVY_SLOTS or not pending):
+                bi, batch = heavy.pop(0)
+            else:
+                bi, batch = pending.pop(0)
             launch(bi, batch)
         time.sleep(0.05)
         for p in list(running):
@@ -586,6 +710,7 @@ def run_children(run, seeds, cases, work):
                 p.wait()
                 collect(p, killed=True)
     run.note("children_started", n_children)
+    run.note("slowest_children", ["%.1fs (started at %.1fs) cases=%d heavy=%s ops=%s" % t for t in sorted(slow, reverse=True)[:6]])
     return results, entered
 
 
@@ -595,13 +720,23 @@ def run_children(run, seeds, cases, work):
 def op_class(op, args=None):
     if op == "zipinner" and args:
         return "zip_member:" + op_class(args[1])
+    if op == "tokdel" and args:
+        return args[0] + "_removed"
     return {"repeat": "repeat", "tokcopy": "id_copy", "json": "json", "json2": "json_pair", "ref": "asset_ref",
             "sub": "byte", "xor": "byte", "u32": "field", "u16": "field", "u32xor": "field", "u32add": "field", "token": "token",
-            "delete": "chunk", "dup": "chunk", "swap": "chunk", "noise": "noise", "multi": "multi",
+            "delete": "chunk", "dup": "chunk", "swap": "chunk", "noise": "noise", "multi": "multi", "grow": "grown",
             "raw": "noise"}.get(op, op)
 
 
+def input_class(op, args):
+    """Key of a grown file: loader + `sym=nonlinear` + the family.  The family IS the input class; time and memory
+    grow together (2^n instances cost both), which bound breaks first is a race, and the frame an interrupt
+    lands in moves around: neither belongs in a key that has to be the same on every run."""
+    return "nonlinear input=%s" % args[1] if op == "grow" else None
+
+
 def judge(run, seeds, results):
+    grown_table = []
     for cid, (case, rec) in sorted(results.items()):
         _, si, op, args, entry, via = case[:6]
         warmup = len(case) > 6
@@ -609,6 +744,12 @@ def judge(run, seeds, results):
         ext = seed["ext"]
         outcome = rec["outcome"]
         nontrivial = op != "valid"
+        grown = input_class(op, args)
+        if op == "grow":
+            run.state("grown_family_outcomes:" + ext, "%s n=%s %s" % (args[1], args[2], outcome))
+            grown_table.append("%s %s n=%s %s/%s len=%s -> %s cpu=%.2f/%.1f rss+%dM" % (
+                ext, args[1], args[2], entry, via, rec.get("len"), outcome, -1 if rec.get("cpu") is None else rec["cpu"], rec.get("cpu_limit") or -1,
+                (rec.get("rss_growth") or 0) >> 20))
         run.case("%s:%s:%s:%s" % (ext, entry, via, op_class(op, args)), seed["id"], op, tuple(map(str, args))[:3], entry, via,
                  nontrivial=nontrivial,
                  sample={"seed": seed["id"], "op": op, "args": args if op not in ("splice", "raw") else "...", "entry": entry,
@@ -624,9 +765,10 @@ def judge(run, seeds, results):
             run.violation("loader=%s sym=hang" % ext,
                           "loading did not finish: killed by the watchdog while the case ran alone", witness)
         elif outcome == "cpu_timeout":
-            run.violation("loader=%s sym=cpu site=%s" % (ext, rec.get("site")), "CPU time above 1.5x the linear bound: " + str(rec.get("detail")), witness)
+            run.violation("loader=%s sym=%s" % (ext, grown or "cpu site=%s" % rec.get("site")),
+                          "CPU time above the linear bound: " + str(rec.get("detail")), witness)
         elif outcome == "memory_error":
-            run.violation("loader=%s sym=memory site=%s" % (ext, rec.get("site")),
+            run.violation("loader=%s sym=%s" % (ext, grown or "memory site=%s" % rec.get("site")),
                           "allocation out of proportion to the input (failed under the address-space cap): " + str(rec.get("detail")), witness)
         elif outcome == "base_exception":
             run.violation("loader=%s sym=base_exception:%s" % (ext, rec.get("detail")),
@@ -635,9 +777,10 @@ def judge(run, seeds, results):
             run.skip("harness error in child: " + str(rec.get("detail"))[:80])
         if outcome in ("geometry", "exception", "recursion_error"):
             if rec.get("cpu") is not None and rec["cpu"] > rec["cpu_limit"]:
-                run.violation("loader=%s sym=cpu" % ext, "CPU %.2fs above the bound %.2fs" % (rec["cpu"], rec["cpu_limit"]), witness)
+                run.violation("loader=%s sym=%s" % (ext, grown or "cpu"), "CPU %.2fs above the bound %.2fs" % (rec["cpu"], rec["cpu_limit"]), witness)
             if rec.get("rss_growth", 0) > rec.get("rss_limit", 1 << 62) and not warmup:
-                run.violation("loader=%s sym=rss" % ext, "peak RSS grew %d bytes (bound %d)" % (rec["rss_growth"], rec["rss_limit"]), witness)
+                run.violation("loader=%s sym=%s" % (ext, grown or "rss"),
+                              "peak RSS grew %d bytes (bound %d)" % (rec["rss_growth"], rec["rss_limit"]), witness)
         if outcome == "recursion_error":
             run.count("recursion_errors")
         leaked = rec.get("leaked") or []
@@ -647,6 +790,8 @@ def judge(run, seeds, results):
                           "a file the loader opened was left open: %s" % leaked[:2], witness)
         elif rec.get("fd_growth", 0) > 0 and via == "path":
             run.count("fd_growth_without_tracked_file")
+    if grown_table:
+        run.note("grown_files", sorted(grown_table))
 
 
 def workload(run):
